@@ -11,6 +11,7 @@ import (
 	"math/rand"
 	"os"
 	"path/filepath"
+	"runtime"
 	"sort"
 	"strconv"
 	"strings"
@@ -95,6 +96,7 @@ func NewRun(t *testing.T, property, level, rule string) *Run {
 	_ = os.MkdirAll(filepath.Join(out, "parts"), 0o755)
 	jn := filepath.Join(out, "parts", fmt.Sprintf("%s-%d.journal", property, r.p.Child))
 	r.journal, _ = os.Create(jn)
+	r.WatchStalls()
 	return r
 }
 
@@ -136,12 +138,14 @@ func (r *Run) RNG(caseID string) *rand.Rand {
 // Journal notes the case about to run, so that a process crash can be
 // attributed (the last journal line is the replay handle).
 func (r *Run) Journal(caseID string, detail string) {
+	SetCase(caseID)
 	if r.journal != nil {
 		fmt.Fprintf(r.journal, "%s\t%s\n", caseID, detail)
 	}
 }
 
 func (r *Run) Eval(n int64) {
+	Heartbeat()
 	r.mu.Lock()
 	r.p.Evaluations += n
 	r.mu.Unlock()
@@ -282,4 +286,84 @@ func (r *Run) Complete() {
 	r.mu.Lock()
 	r.completed = true
 	r.mu.Unlock()
+}
+
+// ---- stall detector ----
+// Checks run in virtual time and normally finish a poll in milliseconds. If no
+// heartbeat arrives for stallAfter of REAL time the process is wedged; the
+// goroutine dump then decides: goroutines of the code under test parked on a
+// mutex for minutes are a deadlock (violation), anything else is inconclusive.
+
+var (
+	hbMu     sync.Mutex
+	hbCount  int64 // bumped by Heartbeat (called on the fake clock inside bubbles, so no timestamps here)
+	hbRun    *Run
+	hbCase   string
+	hbOnce   sync.Once
+)
+
+const stallAfter = 90 * time.Second
+
+// Heartbeat signals progress.
+func Heartbeat() {
+	hbMu.Lock()
+	hbCount++
+	hbMu.Unlock()
+}
+
+// WatchStalls arms the detector for this run (call outside any bubble).
+func (r *Run) WatchStalls() {
+	hbMu.Lock()
+	hbRun = r
+	hbCount++
+	hbMu.Unlock()
+	hbOnce.Do(func() {
+		go func() { // outside any bubble: real time
+			var lastCount int64 = -1
+			lastChange := time.Now()
+			for {
+				time.Sleep(5 * time.Second)
+				hbMu.Lock()
+				cnt := hbCount
+				run := hbRun
+				cs := hbCase
+				hbMu.Unlock()
+				if cnt != lastCount {
+					lastCount, lastChange = cnt, time.Now()
+				}
+				idle := time.Since(lastChange)
+				if run == nil || idle < stallAfter {
+					continue
+				}
+				buf := make([]byte, 8<<20)
+				buf = buf[:runtime.Stack(buf, true)]
+				var locked []string
+				for _, g := range strings.Split(string(buf), "\n\n") {
+					head, _, _ := strings.Cut(g, "\n")
+					if strings.Contains(g, "github.com/hashicorp/memberlist.") &&
+						(strings.Contains(head, "sync.Mutex.Lock") || strings.Contains(head, "sync.RWMutex")) && strings.Contains(head, "minutes") {
+						if len(g) > 1500 {
+							g = g[:1500]
+						}
+						locked = append(locked, g)
+					}
+				}
+				if len(locked) > 0 {
+					run.Violation(cs, run.p.Property+"/deadlock", fmt.Sprintf("no progress for %v of real time; %d goroutine(s) of the code under test have been parked on a mutex for minutes (deadlock)", idle.Round(time.Second), len(locked)), map[string]any{"goroutines": locked})
+				} else {
+					run.Note("stall: no progress for %v but no mutex-parked memberlist goroutine (inconclusive)", idle)
+				}
+				run.Finish()
+				os.Exit(3)
+			}
+		}()
+	})
+}
+
+// SetCase records the case currently running (for stall reports).
+func SetCase(id string) {
+	hbMu.Lock()
+	hbCase = id
+	hbCount++
+	hbMu.Unlock()
 }
